@@ -22,10 +22,18 @@ def gen_security(rng, schemes, allow_undeclared=False):
     out = []
     for _ in range(k):
         if allow_undeclared and rng.random() < 0.15:
-            name = "ghost"
+            base = rng.choice(schemes)
+            name = rng.choice(["ghost", base.upper(), base.capitalize(), base + "x", base[:-1]])
         else:
             name = rng.choice(schemes)
-        scopes = rng.choice([[], [], ["read"], ["read", "write"], ["b", "a"], ["read", "read"]])
+        if out and rng.random() < 0.3:          # repeat an earlier alternative, same or look-alike scopes
+            prev = rng.choice(out)
+            name = prev["name"]
+            scopes = rng.choice([list(prev["scopes"]), [" ".join(prev["scopes"])] if prev["scopes"] else [],
+                                 list(reversed(prev["scopes"]))])
+        else:
+            scopes = rng.choice([[], [], ["read"], ["read", "write"], ["b", "a"], ["read", "read"],
+                                 ["support agent"], ["support", "agent"]])
         out.append({"name": name, "scopes": list(scopes)})
     return out
 
@@ -85,7 +93,7 @@ def gen_method(rng, idx, cfg, opts):
             else:
                 if loc == "form":
                     has_form = True
-                p["type"] = rng.choice(PRIMS)
+                p["type"] = rng.choice(PRIMS) if rng.random() < 0.5 else "string"
                 if rng.random() < 0.4:
                     p["alias"] = rng.choice(["X-" + name, name + "_w", name.upper()])
                 p["validator"] = rng.choice([None, None, "required", "gte=0"]) if p["type"] not in ("string", "bool") \
@@ -93,6 +101,10 @@ def gen_method(rng, idx, cfg, opts):
                 if loc == "query" and rng.random() < 0.15:
                     p["slice"] = True
                     p["pointer"] = False
+            if loc != "body" and params and rng.random() < 0.2:
+                other = rng.choice(params)
+                if not other["ctx"] and other["loc"] != loc and other["loc"] != "body":
+                    p["alias"] = other["alias"] or other["name"]
             params.append(p)
     ret = rng.choice([None, "string", "int", "Item", "*Item"]) if opts.get("types", True) else rng.choice([None, "string"])
     errors = []
@@ -110,6 +122,9 @@ def gen_method(rng, idx, cfg, opts):
         "security": gen_security(rng, schemes, opts.get("undeclared", False)) if opts.get("security", True) else [],
         "params": params, "ret": ret, "errtype": "error", "response": response, "errors": errors,
         "descr": rng.choice(["", "Does a thing", "Multi word description here"]), "file": 0,
+        "grouped": rng.random() < 0.4,
+        "hidden_form": rng.choice(["", "", "(internal)", " not for the public", "(ops-only) text"]),
+        "deprecated_form": rng.choice(["", "", " use the other one"]),
     }
 
 
@@ -131,10 +146,26 @@ def gen_project(rng, opts=None):
     midx = 0
     for ci in range(nctl):
         nm = rng.choice([0, 1, 2, 2, 3, 4]) if ci else rng.choice([1, 2, 3, 4])
-        nfiles = rng.choice([1, 1, 1, 2, 3]) if opts.get("multifile", False) else 1
+        nfiles = rng.choice([1, 1, 2, 3]) if opts.get("multifile", True) else 1
         methods = []
         for _ in range(nm):
             m = gen_method(rng, midx, cfg, opts)
+            if methods and rng.random() < 0.3:
+                # REST style: same template as a sibling, another verb (same path parameters)
+                sib = rng.choice(methods)
+                others = [v for v in VERBS if v != sib["verb"]]
+                m["route"] = sib["route"]
+                m["verb"] = rng.choice(others)
+                m["params"] = [dict(x) for x in sib["params"] if x["loc"] == "path"] + \
+                              [x for x in m["params"] if x["loc"] not in ("path",) and
+                               not (m["verb"] == "GET" and x["loc"] in ("body", "form"))]
+                names = set()
+                uniq = []
+                for x in m["params"]:
+                    if x["name"] not in names:
+                        names.add(x["name"])
+                        uniq.append(x)
+                m["params"] = uniq
             m["file"] = rng.randrange(nfiles)
             midx += 1
             methods.append(m)
@@ -197,9 +228,9 @@ def render_method(c, m, types_pkg, method_body=None):
         else:
             lines.append("// @%s(%s)" % (ANN[p["loc"]], p["name"]))
     if m["hidden"]:
-        lines.append("// @Hidden")
+        lines.append("// @Hidden" + m.get("hidden_form", ""))
     if m["deprecated"]:
-        lines.append("// @Deprecated")
+        lines.append("// @Deprecated" + m.get("deprecated_form", ""))
     for sc in m["security"]:
         lines.append(sec_annotation(sc))
     if m["response"]:
@@ -212,7 +243,18 @@ def render_method(c, m, types_pkg, method_body=None):
             if ty in t and types_pkg:
                 return t.replace(ty, types_pkg + "." + ty)
         return t
-    sig = ", ".join("%s %s" % (p["name"], qual(go_type(p))) for p in m["params"])
+    if m.get("grouped"):
+        parts, k = [], 0
+        ps = m["params"]
+        while k < len(ps):
+            j = k
+            while j + 1 < len(ps) and go_type(ps[j + 1]) == go_type(ps[k]):
+                j += 1
+            parts.append("%s %s" % (", ".join(x["name"] for x in ps[k:j + 1]), qual(go_type(ps[k]))))
+            k = j + 1
+        sig = ", ".join(parts)
+    else:
+        sig = ", ".join("%s %s" % (p["name"], qual(go_type(p))) for p in m["params"])
     if m["ret"]:
         rets = "(%s, error)" % qual(m["ret"])
         z = zero_value(m["ret"])
@@ -380,7 +422,8 @@ def coq_controller(c):
     return "(mkController %s %s %s %s %s %s)" % (
         coq_bytes(c["name"]), coq_bytes(c["pkg"]), coq_bytes(c["tag"] or ""), coq_bytes(c["route"]),
         coq_list([coq_sec(x) for x in c["security"]]),
-        "[" + ";\n     ".join(coq_method(m) for m in c["methods"]) + "]")
+        # receivers are collected file by file (files in name order), then in declaration order
+        "[" + ";\n     ".join(coq_method(m) for m in sorted(c["methods"], key=lambda m: m.get("file", 0))) + "]")
 
 
 def coq_config(cfg):
